@@ -3,6 +3,7 @@
 -/
 import Gmars.Proofs.Abs
 import Gmars.Proofs.RecorderProofs
+import Gmars.Proofs.Reports
 
 namespace Gmars.Props.C15
 open Gmars
@@ -20,6 +21,39 @@ theorem cycle_reports_ignored (r : Recorder) (len : Int → Option Nat) (cy : In
     r.report len { typ := .cycleStart, cycle := cy } = .ok r ∧
     r.report len { typ := .cycleEnd, cycle := cy } = .ok r := by
   constructor <;> rfl
+
+/-- `changes_reported` — every cell whose content changes during a task is named in a write,
+    increment or decrement report of that task (all instruction forms, all core contents, any core
+    size and limits) -/
+theorem changes_reported (s s' : Sim) (pc : UInt64) (wi : Nat) (hex : s.exec pc wi = .ok s') :
+    ∀ a (h1 : a < s.mem.size) (h2 : a < s'.mem.size), s'.mem[a] ≠ s.mem[a] → a ∈ execNamed s s' :=
+  changes_reported' s s' pc wi hex
+
+/-- nothing is reported as written / incremented / decremented that the reference semantics could
+    not touch (`Spec.mayTouch`), so {changed} ⊆ {reported} ⊆ {may touch} -/
+theorem reported_subset_mayTouch (s s' : Sim) (pc : UInt64) (wi : Nat) (q : PQ)
+    (h : StepPre s pc wi q) (hex : s.exec pc wi = .ok s') :
+    ∀ a ∈ execNamed s s',
+      a ∈ Spec.mayTouch s.m.toNat s.readLimit.toNat s.writeLimit.toNat s.absCore pc.toNat :=
+  named_subset_mayTouch s s' pc wi q h hex
+
+/-- `terminate_iff` — a task-termination report is emitted exactly when the task queues no
+    successor, and it names the executed cell and the executing warrior -/
+theorem terminate_iff (s s' : Sim) (pc : UInt64) (wi : Nat) (q : PQ)
+    (h : StepPre s pc wi q) (hex : s.exec pc wi = .ok s') :
+    ((∃ r ∈ execNew s s', r.typ = .taskTerminate) ↔
+      (Spec.step s.m.toNat s.readLimit.toNat s.writeLimit.toNat s.absCore pc.toNat).succ = []) ∧
+    (∀ r ∈ execNew s s', r.typ = .taskTerminate → r = rep .taskTerminate wi pc) :=
+  Gmars.terminate_iff s s' pc wi q h hex
+
+/-- `report_addresses_valid` — every report a task emits carries an address below the core size
+    and the index of the executing warrior -/
+theorem report_addresses_valid (s : Sim) (pc : UInt64) (wi : Nat) (q : PQ) (hwf : s.WF)
+    (hpc : pc < s.m) (hq : s.pqOf wi = some q) :
+    ∃ s', s.exec pc wi = .ok s' ∧
+      ∀ r, r ∈ s'.log.toList.drop s.log.size → r.addr < s.m ∧ r.wi = Int.ofNat wi := by
+  obtain ⟨s', _, he, _, _, _, _, _, _, _, hr⟩ := exec_wf s pc wi q hwf hpc hq
+  exact ⟨s', he, hr⟩
 
 /-- `recorder_last_writer` + `recorder_no_panic`: fed a stream of reports whose addresses are
     inside the core (and whose spawn reports name existing warriors), the bundled state recorder
